@@ -916,7 +916,7 @@ Section Glue.
 End Glue.
 
 (* ---------------------------------------------------------------- exact rationals: the latency SUM of the representative *)
-From Coq Require Import QArith.
+From Coq Require Import QArith Qminmax.
 Section GlueQ.
   Variable dep : regop -> regop -> bool.
   Variables (fwd pidx : Q) (fd : bool).
@@ -994,4 +994,88 @@ Section GlueQ.
         rewrite S1, E, !entry_sum. symmetry. apply sumQ_pairs_eqb. rewrite <- E. exact Pq.
       + exists (entry_ident k 0 e). split; [symmetry; exact S2 | apply ident_forall2; exact Pq].
   Qed.
+  (* the LCD figure: the largest latency sum among the reported entries (0 if there is none) *)
+  Definition qmaxl (l : list Q) : Q := fold_right Qmax 0 l.
+
+  Lemma qmaxl_nonneg : forall l, 0 <= qmaxl l.
+  Proof.
+    induction l as [|x l IH]; [apply Qle_refl|]. cbn [qmaxl fold_right]. fold (qmaxl l).
+    eapply Qle_trans; [exact IH | apply Q.le_max_r].
+  Qed.
+
+  Lemma qmaxl_ub : forall l x, In x l -> x <= qmaxl l.
+  Proof.
+    induction l as [|y l IH]; intros x H; [contradiction|]. cbn [qmaxl fold_right]. fold (qmaxl l).
+    destruct H as [->|H]; [apply Q.le_max_l | eapply Qle_trans; [apply IH; exact H | apply Q.le_max_r]].
+  Qed.
+
+  Lemma qmaxl_lub : forall l b, 0 <= b -> (forall x, In x l -> x <= b) -> qmaxl l <= b.
+  Proof.
+    induction l as [|y l IH]; intros b Hb H; [exact Hb|]. cbn [qmaxl fold_right]. fold (qmaxl l).
+    apply Q.max_lub; [apply H; left; reflexivity | apply IH; [exact Hb | intros x Hx; apply H; right; exact Hx]].
+  Qed.
+
+  Lemma qmaxl_cover (A B : list Q) : (forall x, In x A -> exists y, In y B /\ y == x) -> qmaxl A <= qmaxl B.
+  Proof.
+    intros H. apply qmaxl_lub; [apply qmaxl_nonneg|]. intros x Hx. destruct (H x Hx) as (y & Hy & E).
+    rewrite <- E. apply qmaxl_ub. exact Hy.
+  Qed.
+
+  Theorem rotation_lcd_figure_Q (k : list line) (r : nat) : (r < List.length k)%nat ->
+    qmaxl (map fst (lcd_entries QNum dep fwd pidx fd (rotate r k))) == qmaxl (map fst (lcd_entries QNum dep fwd pidx fd (renumber k))).
+  Proof.
+    intros Hr. destruct (rotation_lcd_entries_Q k r Hr) as (F & B). apply Qle_antisym; apply qmaxl_cover; intros x Hx;
+      apply in_map_iff in Hx; destruct Hx as (e & <- & He).
+    - destruct (B e He) as (e0 & H0 & E & _). exists (fst e0). split; [apply in_map; exact H0 | exact E].
+    - destruct (F e He) as (e2 & H2 & E & _). exists (fst e2). split; [apply in_map; exact H2 | exact E].
+  Qed.
 End GlueQ.
+
+(* ---------------------------------------------------------------- non-vacuity: a 3-line kernel with a cross-iteration cycle *)
+Section Example.
+  Local Open Scope string_scope.
+  Let depx (a b : regop) : bool := String.eqb (r_name a) (r_name b).
+  Let rg (s : string) : opnd := OReg (mkR s "" false).
+  (* 1: a <- f(c)   2: b <- f(a)   3: c <- f(b)      latencies 1, 2, 3; line numbers deliberately not canonical *)
+  Definition ex_kernel : list (line (T:=Q)) :=
+    [ mkL 7%nat (Some ([rg "c"], [rg "a"], [])) 1 1 false [] [];
+      mkL 4%nat (Some ([rg "a"], [rg "b"], [])) 2 2 false [] [];
+      mkL 9%nat (Some ([rg "b"], [rg "c"], [])) 3 3 false [] [] ].
+
+  (* the unrotated kernel, root = its line 1 (instruction 0 of k): the cycle 1 -> 2 -> 3 -> 1001 *)
+  Example ex_paths_0 :
+    lcd_paths QNum depx 0 0 true 8%nat (renumber ex_kernel) (nth 0%nat (renumber ex_kernel) (dline QNum)) = [[(1%nat, 1); (2%nat, 2); (3%nat, 3)]].
+  Proof. vm_compute. reflexivity. Qed.
+
+  (* rotated by 1 (lines: b <- f(a); c <- f(b); a <- f(c)), root = its line 3 (instruction 0 of k): 3 -> 1001 -> 1002 -> 1003 *)
+  Example ex_paths_1 :
+    lcd_paths QNum depx 0 0 true 8%nat (rotate 1%nat ex_kernel) (nth 2%nat (rotate 1%nat ex_kernel) (dline QNum)) = [[(3%nat, 1); (1001%nat, 2); (1002%nat, 3)]].
+  Proof. vm_compute. reflexivity. Qed.
+
+  (* both name the same instructions of k with the same weights *)
+  Example ex_ident :
+    ident_path ex_kernel 1%nat [(3%nat, 1); (1001%nat, 2); (1002%nat, 3)] = ident_path ex_kernel 0%nat [(1%nat, 1); (2%nat, 2); (3%nat, 3)] /\
+    ident_path ex_kernel 0%nat [(1%nat, 1); (2%nat, 2); (3%nat, 3)] = [(0%nat, 1); (1%nat, 2); (2%nat, 3)].
+  Proof. vm_compute. split; reflexivity. Qed.
+
+  (* the reported entries: one cycle, latency sum 6, on both sides *)
+  Example ex_entries :
+    lcd_entries QNum depx 0 0 true (renumber ex_kernel) = [(6, [(1%nat, 1); (2%nat, 2); (3%nat, 3)])] /\
+    lcd_entries QNum depx 0 0 true (rotate 1%nat ex_kernel) = [(6, [(1%nat, 2); (2%nat, 3); (3%nat, 1)])].
+  Proof. vm_compute. split; reflexivity. Qed.
+
+  (* the hypotheses of rotation_glue are satisfiable with a non-empty left-hand side, and its conclusion is witnessed *)
+  Example rotation_glue_nonvacuous :
+    (1 < List.length ex_kernel)%nat /\ (List.length ex_kernel <= 8)%nat /\
+    In (nth 0%nat (renumber ex_kernel) (dline QNum)) (renumber ex_kernel) /\
+    In [(1%nat, 1); (2%nat, 2); (3%nat, 3)]
+       (lcd_paths QNum depx 0 0 true 8%nat (renumber ex_kernel) (nth 0%nat (renumber ex_kernel) (dline QNum))) /\
+    exists l' p', In l' (rotate 1%nat ex_kernel) /\ In p' (lcd_paths QNum depx 0 0 true 8%nat (rotate 1%nat ex_kernel) l') /\
+                  ident_path ex_kernel 1%nat p' = ident_path ex_kernel 0%nat [(1%nat, 1); (2%nat, 2); (3%nat, 3)].
+  Proof.
+    split; [cbn; lia|]. split; [cbn; lia|]. split; [left; reflexivity|]. split; [rewrite ex_paths_0; left; reflexivity|].
+    apply (rotation_glue QNum depx 0 0 true ex_kernel 1%nat 8%nat 8%nat) with (l := nth 0%nat (renumber ex_kernel) (dline QNum));
+      [cbn; lia | cbn; lia | left; reflexivity |].
+    rewrite ex_paths_0. left. reflexivity.
+  Qed.
+End Example.
